@@ -29,8 +29,10 @@ def _strip_shape(vn):
 
 
 class Facts(Walker):
-    def __init__(self, func: Func, prog, unit_params=(), callbacks=None, unit_summaries=None, assume=None):
+    def __init__(self, func: Func, prog, unit_params=(), callbacks=None, unit_summaries=None, assume=None, seed=None, seed_facts=None):
         super().__init__(func)
+        self.seed = dict(seed or {})          # parameter name -> caller's value number (interprocedural continuation)
+        self.seed_facts = frozenset(seed_facts or ())
         self.assume = dict(assume or {})      # parameter name -> assumed truth value (configuration-driven arms)
         self.prog = prog
         self.mod = func.module
@@ -98,12 +100,12 @@ class Facts(Walker):
         return out
 
     def initial(self):
-        st = {"F": frozenset(), "C": frozenset()}
+        st = {"F": self.seed_facts, "C": frozenset()}
         a = self.func.node.args
         for p in a.posonlyargs + a.args + a.kwonlyargs:
             if p.arg == self.self_name:
                 continue
-            st["v:" + p.arg] = "P:" + p.arg
+            st["v:" + p.arg] = self.seed.get(p.arg, "P:" + p.arg)
             if p.arg in self.unit_params:
                 st["F"] = st["F"] | {("UNIT", "P:" + p.arg)}
         return st
